@@ -1,5 +1,6 @@
 import DashLive.Model.Options
 import DashLive.Gen.Options
+import DashLive.Gen.Manifests
 import DashLive.Driver.Util
 /-! Channels for the option model (C07).
 
@@ -17,6 +18,12 @@ written as a *valspec*:
 * `optparse <hexquery>`             → `khex=vhex;…` (`parse_qsl` then first value per key)
 * `optmediaquery <use> <defaults> <opts> <overrides key=T<hex>;…|->` → hex
 * `optmedia <defaults> <hexurl>`    → `i@valspec;…` for every row | `!valueError`
+* `optserve <manifest key> <modehex> <defaults> <khex=vhex;…|->` → `i@valspec;…` of the fields
+   `ServeManifest.get` hands to `ManifestContext` | `!invalidOptions` | `!patchNeedsTimeline`
+* `optreqquery <manifest key> <modehex> <use> <defaults> <args> <overrides>` → hex of the query string on
+   the URLs of media type `use`, computed from the *request* (restrictions, features, check, filters) | refusal
+* `optcalc <modehex> <defaults> <khex=vhex;…|->` → `calculate_options(mode, args, stream)` of a media
+   handler (with `check_option_values`): `i@valspec;…` | `!valueError`
 
 The date-time codec of the driver: a value is its canonical ISO text (what
 `to_iso_datetime` prints); `parse` accepts exactly canonical text
@@ -46,7 +53,7 @@ def hmsOk (s : Bytes) : Bool :=
   | _ => false
 
 def tzOk (s : Bytes) : Bool :=
-  if s == [90] then true
+  if s == [90] || s == [] then true     -- `[]`: a date-time without zone (naive)
   else match s with
     | [sg, h1, h2, c, m1, m2] =>
       (sg == 43 || sg == 45) && c == 58 &&
@@ -82,9 +89,17 @@ def canonicalIso (s : Bytes) : Bool :=
      let tz := tail.drop frac.length
      hmsOk hms && fracOk frac && tzOk tz)
 
+/-- does the canonical text carry a zone? (`Z` or `±HH:MM` at the end) -/
+def hasZone (s : Bytes) : Bool :=
+  s.getLast? == some 90 || (s.length ≥ 6 && ((s.drop (s.length - 6)).head? == some 43 ||
+    (s.drop (s.length - 6)).head? == some 45) && s.length > 19)
+
 def codec : DTCodec Bytes where
   parse := fun s => if canonicalIso s then some s else none
-  render := fun d => d
+  render := fun d => if d.length == 9 || hasZone d then d else d ++ [90]   -- to_iso_datetime adds Z to a naive value
+  check := fun d =>
+    if d.length == 9 then none                 -- a time of day is not a point in time
+    else if hasZone d then some d else some (d ++ [90])
 
 /-! ### valspec -/
 
@@ -255,8 +270,59 @@ def optmedia : List String → Option String
     | .ok r => some (joinWith ";" ((List.range table.length).map fun i => s!"{i}@{showVal (r i)}"))
   | _ => none
 
+def parseArgs (s : String) : Option (List (Bytes × Bytes)) :=
+  if s == "-" then some []
+  else (s.splitOn ";").mapM fun (e : String) =>
+    match e.splitOn "=" with
+    | [k, v] => do some ((← parseHex k), (← parseHex v))
+    | _ => none
+
+def K := DashLive.Gen.Manifests.filters
+
+def optserve : List String → Option String
+  | [key, mode, dflt, args] => do
+    let m ← DashLive.Gen.Manifests.manifests.find? (·.key == key)
+    let md ← parseHex mode
+    let d ← parseAssign dflt
+    let a ← parseArgs args
+    let dv : Nat → Val Bytes := fun i => (d.lookup i).getD .none
+    match serveManifestOptions codec K table m md (firstOnly a) dv with
+    | .error .invalidOptions => some "!invalidOptions"
+    | .error .patchNeedsTimeline => some "!patchNeedsTimeline"
+    | .ok o =>
+      let items := (List.range table.length).filterMap fun i => (o i).map fun v => s!"{i}@{showVal v}"
+      some (if items.isEmpty then "-" else joinWith ";" items)
+  | _ => none
+
+def optreqquery : List String → Option String
+  | [key, mode, use, dflt, args, ovs] => do
+    let m ← DashLive.Gen.Manifests.manifests.find? (·.key == key)
+    let md ← parseHex mode
+    let u ← parseNat use
+    let d ← parseAssign dflt
+    let a ← parseArgs args
+    let ov ← parseParams ovs
+    let ov' ← ov.mapM fun p => p.2.map (p.1, ·)
+    let dv : Nat → Val Bytes := fun i => (d.lookup i).getD .none
+    match requestMediaQuery codec K table m md (firstOnly a) dv none u ov' with
+    | .error .invalidOptions => some "!invalidOptions"
+    | .error .patchNeedsTimeline => some "!patchNeedsTimeline"
+    | .ok q => some (toHex q)
+  | _ => none
+
+def optcalc : List String → Option String
+  | [mode, dflt, args] => do
+    let md ← parseHex mode
+    let d ← parseAssign dflt
+    let a ← parseArgs args
+    let dv : Nat → Val Bytes := fun i => (d.lookup i).getD .none
+    match calculateOptions codec K table md (firstOnly a) dv none none with
+    | .error e => some (showErr e)
+    | .ok r => some (joinWith ";" ((List.range table.length).map fun i => s!"{i}@{showVal (r i)}"))
+  | _ => none
+
 def channels : List (String × (List String → Option String)) :=
-  [("optfrom", optfrom), ("optto", optto), ("optgen", optgen), ("optquery", optquery),
+  [("optserve", optserve), ("optreqquery", optreqquery), ("optcalc", optcalc), ("optfrom", optfrom), ("optto", optto), ("optgen", optgen), ("optquery", optquery),
    ("optparse", optparse), ("optmediaquery", optmediaquery), ("optmedia", optmedia)]
 
 end DashLive.Driver.Options
